@@ -160,7 +160,7 @@ Proof.
     { intros tag o' c' H. rewrite map_app. apply Subseq_snoc_r. exact (od_items s O _ _ H). }
     destruct (alookup (r_mid r) (smap s)) as [o|] eqn:Es.
     + destruct (r_kind r) eqn:Ek.
-      5: { apply (Ord_vpres (s <| win := w |> <| processed ::= fun l => l ++ [(r, None)] |>)); [|apply vpres_end_driver].
+      5: { apply (Ord_vpres (s <| win := w |> <| processed ::= fun l => l ++ [(r, None)] |>)); [|destruct (fix5 (fx s)); [apply vpres_refl|apply vpres_end_driver]].
            apply (Ord_logs2 s _ r w None); try reflexivity; assumption. }
       all: destruct (getop s o) as [c|] eqn:Ec; [destruct (o_rx c) eqn:Erx|]; cbn [negb].
       (* receiver alive: the item is pushed and logged as routed to o *)
